@@ -15,6 +15,9 @@
 // bailiwick too wide after a jump to a cached delegation >= 2 labels deep) is
 // present: three narrow `known` signatures …/deep-cached-jump/sibling-b[-new];
 // every other signature fails.
+// Spoof bursts (bursts.go): 1…64 wrong-id / wrong-question / both-wrong messages
+// ahead of the real reply or instead of it, over UDP and as TCP frames; the
+// cases of the kinds added there have indexes >= extraIndexBase.
 // Mutants: /verif/mutants/C07/README.md. Debugging: C07_DEBUG=1|2, C07_CASE=<i>,
 // C07_BATCH=lo:hi:step, C07_ROUNDS, C07_WORKERS.
 package main
